@@ -398,7 +398,12 @@ func readFirstFlight(c io.Reader) (ff firstFlight, err error) {
 			}
 			return ff, nil
 		case 20:
-			ff.Resumed = ff.Kind == "serverHello" && len(ff.MsgTypes) == 1
+			ff.Resumed = ff.Kind == "serverHello"
+			for _, mt := range ff.MsgTypes {
+				if mt == 11 { // Certificate: full handshake
+					ff.Resumed = false
+				}
+			}
 			return ff, nil
 		case 22:
 			hand = append(hand, body...)
